@@ -1,6 +1,6 @@
 CONFIG = {
     "level": "proof",
-    "level_text": "Lean theorems (kernel-checked, no sorry/axioms) about the election reference model for all registries, stake distributions, parameters (incl. non-positive limits), runtimes and all shuffles (the DRBG/VRF order is an arbitrary function): determinism, eligibility of every elected validator and committee member, the configured limits with the exact MaxValidators boundary, stake order, monotone voting power >= 1, and validator updates that turn the previous set into exactly the new one. The Go election code is tied to the model on every run by an exact correspondence (helpers through verif exports; the scheduler application's BeginBlock/EndBlock on the mock application state over successive epochs incl. slashing-triggered re-elections, insecure and VRF beacon backends, two replicas) and its outputs are judged directly by the executable spec predicate ValidElection.",
+    "level_text": "Lean theorems (kernel-checked, no sorry/axioms) about the election reference model for all registries, stake distributions, parameters (incl. non-positive limits), runtimes and all shuffles (the DRBG/VRF order is an arbitrary function): determinism, eligibility of every elected validator and committee member, the configured limits (exact bound for MaxValidators >= 1, which genesis and the parameter-change validation guarantee; the boundary of the election function for non-positive values is a separate theorem), stake order, monotone voting power >= 1, and validator updates that turn the previous set into exactly the new one. The Go election code is tied to the model on every run by an exact correspondence (helpers through verif exports; the scheduler application's BeginBlock/EndBlock on the mock application state over successive epochs incl. slashing-triggered re-elections, insecure and VRF beacon backends, two replicas) and its outputs are judged directly by the executable spec predicate ValidElection.",
     "technique": "Lean 4 proof over reference model + exact correspondence with the Go scheduler (real DRBG order fed as the permutation witness) + spec-on-implementation",
     "models": ["elect"],
     "lean_sources": ["OasisModel/Scheduler", "OasisModel/Proto.lean", "OasisProofs/Helpers/SchedulerValidators.lean",
@@ -22,7 +22,7 @@ CONFIG = {
         "DebugForceElect is nil (test-only option, needs DebugDontBlameOasis)",
         "stake_order and the exact validator-update theorem assume pairwise distinct consensus keys of registered nodes (registry uniqueness, property C17); the correspondence also exercises duplicate keys at helper level",
         "VRF backend: real ECVRF proofs of test keys are put into the beacon state and the real hashed betas (tuplehash) are fed to the model; hashed-beta collisions are assumed absent (theorem betaShuffle_perm states it as a hypothesis)",
-        "the spec predicate bounds the validator count by max(MaxValidators,1): with MaxValidators <= 0 (reachable through an unvalidated governance parameter change) the code elects exactly one validator (theorem maxValidators_nonpositive_elects_one, corpus/C14/maxvalidators-zero-elects-one.txt); `electdrv -strict-max` demands the configured limit itself and reports that case",
+        "the spec predicate demands count <= MaxValidators for every reachable parameter setting: genesis-valid parameters (InitChain rejects non-positive limits) changed only by governance change-parameters proposals, which the harness drives through the real Application.ExecuteMessage/changeParameters incl. 0 and negative values and which must be rejected (oasis-core fix 8261013; theorem reachable_limits_positive; corpus/C14/maxvalidators-zero-elects-one.txt re-reports spec-max-validators if the validation disappears). Non-positive limits written directly into state remain in the generator as model-correspondence cases (the election function then elects one validator, theorem maxValidators_nonpositive_elects_one); their count limit is not judged by the spec",
     ],
     "explanation": "Theorems about the reference model for every registry/stake/parameter/shuffle; exact correspondence with the Go election code on generated registries (helper level and whole scheduler application over successive epochs, two replicas); ValidElection evaluated on the implementation's outputs.",
 }
